@@ -141,6 +141,23 @@ def run_deductive(prop, tier, seed, report):
         report["_order_open"] = order_open
         report["deductive"].update({"obligations": n_ob, "discharged": n_dis, "by_solver": by_solver,
                                     "order_sites": len(sites), "order_justified_sites_trusted": sum(1 for s_ in sites if s_.verdict.startswith("justified"))})
+    # write-once attributes used by the proofs of this property: the premise is an obligation on the package source
+    wo_used = sorted(a_ for a_ in eng.side.write_once if any(f".{a_} is write-once" in u for u in eng.used_assumptions))
+    wo_open = []
+    for a_ in wo_used:
+        n_ob += 1
+        bad = write_once_violations(eng.repo, a_)
+        name = f"write-once@{a_}"
+        if bad:
+            wo_open.append((name, bad))
+        else:
+            n_dis += 1
+            by_solver["syntactic-rule"] = by_solver.get("syntactic-rule", 0) + 1
+            if len(samples) < 12:
+                samples.append({"obligation": name, "kind": "frame", "line": 0, "solver": "syntactic-rule",
+                                "clause": f"every assignment to .{a_} in the package is `self.{a_} = ...` inside an __init__, and no __init__ is called on an existing object"})
+    report["_wo_open"] = wo_open
+    report["deductive"].update({"obligations": n_ob, "discharged": n_dis, "by_solver": by_solver})
     report["samples"] = samples
     report["_engine"] = eng
     report["_failed"] = failed
@@ -149,6 +166,43 @@ def run_deductive(prop, tier, seed, report):
     report["_ledger"] = ledger
     report["_known"] = known
     return report
+
+
+def write_once_violations(repo, attr):
+    """places in the package that could assign `.attr` of an object other than the one under construction"""
+    import ast
+    from contracts.sorts import WRITE_ONCE_DYNAMIC_SITES_JUSTIFIED
+    bad = []
+    for key, fi in sorted(repo.funcs.items()):
+        fn = fi.node
+        in_init = fn.name == "__init__"
+        justified = any(key.startswith(j["module"] + "::") for j in WRITE_ONCE_DYNAMIC_SITES_JUSTIFIED)
+        for n in ast.walk(fn):
+            tgts = []
+            if isinstance(n, ast.Assign):
+                tgts = n.targets
+            elif isinstance(n, (ast.AugAssign, ast.AnnAssign)):
+                tgts = [n.target]
+            elif isinstance(n, ast.Delete):
+                tgts = n.targets
+            for t in tgts:
+                for sub in ast.walk(t):
+                    if isinstance(sub, ast.Attribute) and sub.attr == attr and not isinstance(sub.ctx, ast.Load):
+                        if not (in_init and isinstance(sub.value, ast.Name) and sub.value.id == "self"):
+                            bad.append(f"{key}:{getattr(n, 'lineno', 0)}: {ast.unparse(n)[:80]}")
+            if isinstance(n, ast.Call):
+                f = n.func
+                name = f.id if isinstance(f, ast.Name) else (f.attr if isinstance(f, ast.Attribute) else "")
+                if name in ("setattr", "__setattr__", "delattr", "__delattr__") and any(isinstance(a, ast.Constant) and a.value == attr for a in n.args):
+                    bad.append(f"{key}:{n.lineno}: {ast.unparse(n)[:80]}")
+                if name in ("setattr", "__setattr__") and not all(isinstance(a, ast.Constant) for a in n.args[1:2]) and not justified:
+                    bad.append(f"{key}:{n.lineno}: dynamic {ast.unparse(n)[:80]}")
+                if name == "__init__" and isinstance(f, ast.Attribute):
+                    recv = f.value
+                    is_super = isinstance(recv, ast.Call) and isinstance(recv.func, ast.Name) and recv.func.id == "super"
+                    if not (is_super and in_init):
+                        bad.append(f"{key}:{n.lineno}: explicit constructor call {ast.unparse(n)[:80]}")
+    return bad
 
 
 def witness_for(key, tier, clause=None):
@@ -247,6 +301,10 @@ def main(argv=None):
         path = write_replay(prop, name, {"property": prop, "obligation": name, "function": s_.func, "line": s_.line, "site": s_.text,
                                          "consumer": s_.consumer, "witness": None,
                                          "note": "a set is consumed in iteration order here and neither an order-insensitivity rule nor a recorded justification applies"})
+        violations.append((name, path, " no-failing-input-found"))
+    for name, bad in report.get("_wo_open", []):
+        path = write_replay(prop, name, {"property": prop, "obligation": name, "witness": None, "sites": bad,
+                                         "note": "an attribute the proofs treat as assigned only by its object's constructor is assigned elsewhere"})
         violations.append((name, path, " no-failing-input-found"))
     # ---- functions that left the subset: bounded stand-in decides
     bounded = []
